@@ -805,14 +805,17 @@ static void delete_pair (hawk_rbt_t* rbt, hawk_rbt_pair_t* pair)
 
 	if (y == pair)
 	{
-		if (y->color == HAWK_RBT_BLACK && !IS_NIL(rbt,x))
+		/* removing a black pair shortens every path through it by one black pair,
+		 * also when the child x taking its place is the nil sentinel. adjust_for_delete()
+		 * is given the parent explicitly and never looks at x->parent, so nil is fine. */
+		if (y->color == HAWK_RBT_BLACK)
 			adjust_for_delete (rbt, x, parent);
 
 		hawk_rbt_freepair (rbt, y);
 	}
 	else
 	{
-		if (y->color == HAWK_RBT_BLACK && !IS_NIL(rbt,x))
+		if (y->color == HAWK_RBT_BLACK)
 			adjust_for_delete (rbt, x, parent);
 
 		if (pair->parent)
